@@ -15,6 +15,7 @@ import (
 )
 
 type Obligation struct {
+	Verdicts string // thorough tier: verdict of every solver that answered within the grace period
 	Name   string
 	Kind   string // post, pre, inv-init, inv-step, safe, call-pre, frame, guard, lemma, vacuity
 	Func   string
